@@ -624,8 +624,74 @@ fn iterate_with_history(b: &[u8], hist: u64) -> Result<(Vec<String>, Vec<bool>),
     let mut c = Compound::parse(b)?;
     let mut out = vec![];
     let bound = b.len() + 8;
-    match hist % 4 {
-        0 => {
+    // the provided Iterator methods (which an implementation may override) must agree with next()
+    let straight = |b: &[u8]| -> Vec<String> {
+        let mut v = vec![];
+        if let Ok(c) = Compound::parse(b) {
+            for r in c {
+                v.push(format!("{r:?}"));
+                assert!(v.len() <= bound, "{}", obs::STEP_BOUND_MSG);
+            }
+        }
+        v
+    };
+    match hist % 8 {
+        4 => {
+            // count() on a fresh iterator, and on one advanced by j
+            let all = straight(b);
+            let n = Compound::parse(b)?.count();
+            let j = (hist / 8 % 4) as usize;
+            let mut adv = Compound::parse(b)?;
+            let taken = adv.by_ref().take(j).count();
+            let rest = adv.count();
+            out = all.clone();
+            if n != all.len() {
+                out.push(format!("count() == {n} but next() yields {} items", all.len()));
+            }
+            if taken + rest != all.len() {
+                out.push(format!("after {taken} items count() == {rest}, next() yields {} items in all", all.len()));
+            }
+            c = Compound::parse(b)?;
+            for _ in c.by_ref() {}
+        }
+        5 => {
+            // last() and size_hint()
+            let all = straight(b);
+            let (lo, hi) = Compound::parse(b)?.size_hint();
+            let last = Compound::parse(b)?.last().map(|r| format!("{r:?}"));
+            out = all.clone();
+            if lo > all.len() || hi.map(|h| h < all.len()).unwrap_or(false) {
+                out.push(format!("size_hint() == ({lo}, {hi:?}) but next() yields {} items", all.len()));
+            }
+            if last.as_ref() != all.last() {
+                out.push(format!("last() == {last:?}, the last item of next() is {:?}", all.last()));
+            }
+            c = Compound::parse(b)?;
+            for _ in c.by_ref() {}
+        }
+        6 => {
+            // nth(j) then the rest
+            let j = (hist / 8 % 5) as usize;
+            match c.nth(j) {
+                Some(r) => {
+                    let all = straight(b);
+                    out.extend(all.iter().take(j).cloned());
+                    out.push(format!("{r:?}"));
+                    for r in c.by_ref() {
+                        out.push(format!("{r:?}"));
+                        assert!(out.len() <= bound, "{}", obs::STEP_BOUND_MSG);
+                    }
+                }
+                None => {
+                    // fewer than j+1 items: everything was consumed
+                    out = straight(b);
+                    if out.len() > j && !out.iter().take(j + 1).any(|x| x.starts_with("Err")) {
+                        out.push(format!("nth({j}) == None although next() yields {} items", out.len()));
+                    }
+                }
+            }
+        }
+        0 | 7 => {
             // straight drain
             while let Some(r) = c.next() {
                 out.push(format!("{r:?}"));
